@@ -481,7 +481,10 @@ func (c *ctxConn) Read(b []byte) (n int, err error) {
 			if netErr, ok := err.(net.Error); ok && netErr.Timeout() && netErr.Temporary() {
 				continue
 			}
-			return 0, err
+			// A reader may return the bytes that it has read along with the error: a TLS 1.2
+			// connection does that for the last envelope when it reads the close notify alert
+			// of the remote party together with it. These bytes should not be discarded.
+			return n, err
 		}
 
 		return n, nil
